@@ -238,13 +238,13 @@ func init() {
 	register(&spec{
 		ID: "C06", Title: "Stable identity and storage per ordinal; claims come first and are never removed",
 		Runs: []runSpec{
-			{Name: "create", Pkg: pkgCtl, Func: "VH_Pod", Quick: []int{2, 1}, Thorough: []int{3, 1},
+			{Name: "create", Pkg: pkgCtl, Func: "VH_Pod", Quick: []int{2, 1}, Thorough: []int{2, 2},
 				Bounds: func(a []int) string {
 					return fmt.Sprintf("ordinal in [0,4], partition in [0,5], 0..%d claim templates (labels nil/non-nil, clashing template volume or not), each claim absent / on the API server only / in the cache, up to %d failing call(s) among claim lookups, claim creates and the pod create (4 error kinds)", a[0], a[1])
 				},
 				Asserts: []string{"pod name is <set>-<ordinal>", "controlling owner reference to the set by UID", "every claim exists before the pod create is issued", "a claim that cannot be created prevents the pod create", "created claims carry the selector's match labels"},
 				Covers:  []string{"pod created after its claims", "claim lookup or creation failed", "template volume clashes with a claim template"}},
-			{Name: "recreate", Pkg: pkgCtl, Func: "VH_Pod", Quick: []int{2, 0}, Thorough: []int{3, 0},
+			{Name: "recreate", Pkg: pkgCtl, Func: "VH_Pod", Quick: []int{2, 0}, Thorough: []int{2, 0},
 				Bounds: func(a []int) string {
 					return fmt.Sprintf("as above without faults, followed by deletion of the pod and a second creation of the same ordinal (0..%d claim templates)", a[0])
 				},
